@@ -443,6 +443,8 @@ def frac(x):
 
 def close(impl, model, rel=2.0 ** -20):
     """real-valued observable: |impl - model| <= rel*max(1,|model|)  (model exact)"""
+    if isinstance(impl, float) and (impl != impl or impl in (float('inf'), float('-inf'))):
+        return False
     impl = Fraction(impl) if not isinstance(impl, Fraction) else impl
     return abs(impl - model) <= Fraction(rel) * max(1, abs(model))
 
